@@ -4,6 +4,7 @@ Property theorems only (soundness of the checkers of Model/Bounds.lean, which th
 implementation's real outputs converted to exact rationals); helper lemmas live in Proofs/Bounds.lean.
 -/
 import TrimeshVerif.Proofs.Bounds
+import TrimeshVerif.Model.RevolveGrid
 namespace TV.C16
 open TV.Query TV.Bounds
 
@@ -76,5 +77,16 @@ theorem C16_cyl_contains (eps : Rat) (pts : List P) (c a : P) (r h : Rat)
     ∀ p ∈ pts, ∃ (lam : Rat) (u : P), sub p c = add u (smul lam a) ∧ dot u a = 0 ∧
       lam * lam * dot a a ≤ (h / 2 + eps) * (h / 2 + eps) ∧ dot u u ≤ (r + eps) * (r + eps) := by
   exact cylCheck_imp eps pts c a r h hc
+
+/-- **why dropping zero-area simplices opens a hull** (the recorded finding `C16-hull-drops-zero-area-simplices`): a
+    closed triangulation in which one side of an edge is split at a point of that edge is closed only through the
+    zero-area triangle spanning the split (here `(0, 4, 1)`, vertex 4 on the segment from 0 to 1); with that triangle
+    removed - what `convex_hull` does to the degenerate simplices qhull returns for collinear points - three directed
+    edges are left without their reverse (`closedB`: every directed edge as often as its reverse) -/
+theorem C16_dropping_degenerate_simplex_opens_witness :
+    let withSliver : List TV.RevolveGrid.Face := [(0, 1, 2), (4, 0, 3), (1, 4, 3), (0, 4, 1), (1, 3, 2), (0, 2, 3)]
+    let dropped : List TV.RevolveGrid.Face := [(0, 1, 2), (4, 0, 3), (1, 4, 3), (1, 3, 2), (0, 2, 3)]
+    TV.RevolveGrid.closedB withSliver = true ∧ TV.RevolveGrid.closedB dropped = false := by
+  decide +kernel
 
 end TV.C16
